@@ -921,3 +921,124 @@ def facet_selection(fn, facts=None):
     if info["faces"] is None:
         raise NotPointwise("no selection of facets (push_back of the facet index under a condition on its counter) found")
     return selected, val, info
+
+
+# -------------------------------------------------------------------------------------------------------------------
+# (6) which calls are reached with a pointer known to be null / non-null
+# -------------------------------------------------------------------------------------------------------------------
+
+class NullPaths:
+    """Path walk over one function tracking whether ONE pointer (a parameter / local, given by its decl id) is null:
+    outcomes 'T' (non-null), 'F' (null).  Conditions are split by polarity (`!`, `&&`, `||`, `p`, `p != nullptr`, `p == nullptr`,
+    const bool locals holding such a test).  `calls` collects (call node, set of outcomes possible when it is reached)."""
+
+    def __init__(self, fn, decl, callee_re):
+        self.fn, self.decl, self.rx = fn, decl, re.compile(callee_re)
+        self.pol_alias = {}
+        self.calls = []
+        self.unknown = []
+
+    def is_p(self, n):
+        n = strip_casts(n)
+        return n is not None and n.get("k") == "Ref" and n.get("d") == self.decl
+
+    def mentions(self, n):
+        return any(x.get("k") == "Ref" and (x.get("d") == self.decl or x.get("d") in self.pol_alias) for x in walk(n))
+
+    def atom(self, c):
+        c = strip_casts(c)
+        if c is None:
+            return None
+        if c.get("k") == "Ref" and c.get("d") in self.pol_alias:
+            return self.pol_alias[c["d"]]
+        if self.is_p(c):
+            return 1
+        if c.get("k") in ("Bin", "OpCall") and c.get("op") in ("==", "!="):
+            a, b = (c["lhs"], c["rhs"]) if c["k"] == "Bin" else (c.get("a", [None, None]) + [None, None])[:2]
+            for x, y in ((a, b), (b, a)):
+                y = strip_casts(y)
+                if x is not None and y is not None and self.is_p(x) and (y.get("k") == "Null" or (y.get("k") == "Int" and y.get("v") == "0")):
+                    return 1 if c["op"] == "!=" else -1
+        return None
+
+    def split(self, c, S):
+        c = strip_casts(c)
+        if c is None:
+            return S, S
+        if c.get("k") == "Un" and c.get("op") == "!":
+            t, f = self.split(c["e"], S)
+            return f, t
+        if c.get("k") == "Bin" and c.get("op") == "&&":
+            t1, f1 = self.split(c["lhs"], S)
+            self.scan(c["rhs"], t1)
+            t2, f2 = self.split(c["rhs"], t1)
+            return t2, f1 | f2
+        if c.get("k") == "Bin" and c.get("op") == "||":
+            t1, f1 = self.split(c["lhs"], S)
+            self.scan(c["rhs"], f1)
+            t2, f2 = self.split(c["rhs"], f1)
+            return t1 | t2, f2
+        p = self.atom(c)
+        if p is not None:
+            t = S & ({"T"} if p > 0 else {"F"})
+            return t, S - t
+        if self.mentions(c):
+            self.unknown.append(c)
+        return S, S
+
+    def scan(self, n, S):
+        if n is None or not S:
+            return
+        for x in walk(n, prune=lambda y: y.get("k") == "Lambda"):
+            if featlib.is_call(x) and self.rx.search(x.get("callee", "")):
+                self.calls.append((x, frozenset(S)))
+
+    def run(self, st, S):
+        if st is None or not S:
+            return S
+        k = st.get("k")
+        if k == "Block":
+            for x in st.get("s", []):
+                S = self.run(x, S)
+            return S
+        if k == "Decl":
+            for v in st.get("vars", []):
+                if v.get("init") is not None:
+                    self.scan(v["init"], S)
+                    p = self.atom(v["init"])
+                    if p is not None and not v.get("ref"):
+                        self.pol_alias[v["d"]] = p
+            return S
+        if k == "If":
+            if st.get("c") is not None and st["c"].get("k") != "Bin":
+                self.scan(st["c"], S)
+            elif st.get("c") is not None and st["c"].get("op") not in ("&&", "||"):
+                self.scan(st["c"], S)
+            t, f = self.split(st["c"], S)
+            a = self.run(st.get("then"), set(t))
+            b = self.run(st.get("else"), set(f)) if st.get("else") is not None else set(f)
+            return a | b
+        if k in ("Return", "Throw"):
+            self.scan(st.get("e"), S)
+            return set()
+        if k in ("For", "While", "Do", "ForRange", "Switch", "Try"):
+            if any(x.get("k") == "If" and self.mentions(x.get("c")) for x in walk(st)):
+                self.unknown.append(st)
+            self.scan(st, S)
+            return S
+        if k in ("Case", "Default", "Attributed"):
+            return self.run(st.get("s"), S)
+        if featlib.is_call(st) and st.get("noreturn"):
+            return set()
+        if featlib.is_call(st) and st.get("callee") == "FEAT::assertion" and st.get("a"):
+            # XASSERT(cond): execution continues only where cond holds
+            t, _ = self.split(st["a"][0], S)
+            return t
+        if k in ("Assign",) and self.is_p(st.get("lhs")):
+            self.unknown.append(st)
+        self.scan(st, S)
+        return S
+
+    def analyse(self):
+        self.run(self.fn.body, {"T", "F"})
+        return self
